@@ -55,7 +55,7 @@ def lattice(tier, group):
 def scenario_case(params, model):
     f = common.fr_to_float
     c = dict(kind="scenario_single")
-    for k in ("maxiter", "maxfun", "maxls", "maxcor", "ftarget_kind", "gtol_kind", "callback_kind", "checkpoint", "ck_nit", "ck_pairs"):
+    for k in ("maxiter", "maxfun", "maxls", "maxcor", "ftarget_kind", "gtol_kind", "callback_kind", "checkpoint", "ck_nit", "ck_pairs", "jac_mode"):
         if k in params:
             c[k] = params[k]
     c["maxcor"] = params.get("maxcor", 2)
@@ -74,7 +74,8 @@ def confirm(chk, ex, pid):
         # also the scenario with practical tolerances
         cases.append(dict(cases[0], ftol=0.0, gtol=1e-8))
         if name in ("C04.nfev_within_budget", "C04.nit_within_budget", "C04.eval_message_true", "C04.iter_message_true", "C03.objective_never_increases",
-                    "C05.nfev_equals_calls", "C05.njev_equals_calls"):
+                    "C05.nfev_equals_calls", "C05.njev_equals_calls", "C05.fun_belongs_to_x", "C05.jac_belongs_to_x", "C05.callback_fun_belongs_to_x",
+                    "C05.callback_jac_belongs_to_x", "C03.reported_fun_never_increases"):
             cases.append(dict(cases[0], ftol=0.0, gtol=1e-8, sweep=1))
         res = realrun(cases)
         hit = False
